@@ -46,12 +46,13 @@ type InputRec struct {
 }
 
 type Violation struct {
-	Label  string
-	Inputs map[string]interface{}
-	Forks  []int32
-	Trace  []int32
-	Detail string
-	Tables map[string][]string
+	Label    string
+	Inputs   map[string]interface{}
+	Forks    []int32
+	Trace    []int32
+	Detail   string
+	Tables   map[string][]string
+	Schedule []int32
 }
 
 // PendingPath is a queued decision prefix with (optionally) a model of its
@@ -86,6 +87,7 @@ type Path struct {
 
 	Inputs    []InputRec
 	Forks     []int32 // values returned by ForkN, in order (for native replay)
+	Schedule  []int32 // engine-chosen schedule decisions (map order, events)
 	Reached   map[string]bool
 	Observed  []string
 	Notes     map[string]int
@@ -103,6 +105,7 @@ type Path struct {
 	Depth        int
 
 	Tables        map[string][]string
+	MapRanges     map[string]bool
 	local         *localCtx
 	NSummaries    int
 	NSummaryPaths int
@@ -112,7 +115,8 @@ func NewPath(s *smt.Solver, prefix []int32, maxSteps int64, init smt.Model) *Pat
 	return &Path{
 		B: smt.NewBuilder(), S: s, Prefix: prefix, MaxSteps: maxSteps, initModel: init,
 		Reached: map[string]bool{}, Notes: map[string]int{}, FuncsSeen: map[string]bool{},
-		memo: map[*smt.Term]uint64{}, varMemo: map[*smt.Term][]int{}, varIdx: map[*smt.Term]int{},
+		MapRanges: map[string]bool{},
+		memo:      map[*smt.Term]uint64{}, varMemo: map[*smt.Term][]int{}, varIdx: map[*smt.Term]int{},
 	}
 }
 
@@ -426,6 +430,17 @@ func (p *Path) push(d int32, m smt.Model) {
 }
 
 // ForkN is a pure n-way decision (no solver involved).
+// ForkSchedule is ForkN for engine-chosen schedules (map iteration order,
+// event order): the choice is part of the decision trace but not of the
+// harness-visible fork list (a native replay cannot impose it).
+func (p *Path) ForkSchedule(n int) int {
+	keep := p.Forks
+	d := p.ForkN(n)
+	p.Forks = keep
+	p.Schedule = append(p.Schedule, int32(d))
+	return d
+}
+
 func (p *Path) ForkN(n int) int {
 	if n <= 1 {
 		return 0
@@ -548,7 +563,7 @@ func (p *Path) ensureModelSoft() {
 
 func (p *Path) fail(label, detail string) {
 	p.Violation = &Violation{Label: label, Inputs: p.InputValues(), Forks: append([]int32(nil), p.Forks...),
-		Trace: append([]int32(nil), p.Trace...), Detail: detail, Tables: p.Tables}
+		Trace: append([]int32(nil), p.Trace...), Detail: detail, Tables: p.Tables, Schedule: append([]int32(nil), p.Schedule...)}
 	panic(pathAbort{abortViolation, label})
 }
 
